@@ -278,6 +278,9 @@ def _handle_refutation(contract, eng, res, label, sat):
     if confirmed is None and getattr(contract, "native_search", None):
         # contracts over uninterpreted callees: look for a failing CONCRETE instance (concrete callees) on the real code
         confirmed = contract.native_search(None if is_loop_ob else key, canary=False)
+        if confirmed is None and not is_loop_ob:
+            # a structural clause (how callees are wired) has no native reading of its own: any clause failing natively is the witness
+            confirmed = contract.native_search(None, canary=False)
     if confirmed is not None:
         res.status = R.REFUTED
         res.witness = dict(args=repr(confirmed["args"]), outcome=repr(confirmed["outcome"]))
@@ -294,6 +297,13 @@ def _handle_refutation(contract, eng, res, label, sat):
         res.replay = dict(confirmed=False, tried=tried)
         res.detail = ("verification condition has a counter-model (" + str(sat[0]["model"])[:800] +
                       "); no concrete failing input found by native replay / bounded search")
+        res.smt = sat[0].get("smt", "")[:4000]
+        return res
+    if getattr(contract, "native_search", None) and not tried:
+        # modular contract over callee stubs: the VC is refuted but no concrete instance fails natively
+        res.status = R.REFUTED
+        res.replay = dict(confirmed=False, tried=tried)
+        res.detail = "verification condition over the callee contracts is refuted; no concrete failing input found by the native search"
         res.smt = sat[0].get("smt", "")[:4000]
         return res
     # straight-line path, model determines the input, CPython says the clause holds => engine is wrong
